@@ -145,10 +145,11 @@ package submission
 //@ ensures [every-list-offered-went-through-the-compatibility-filter] result2 == nil ==> (c0.called && result0 == c0.res) || (c1.called && result0 == c1.res) || (c2.called && result0 == c2.res)
 //@ at c0 assert [temporal-filter-on-the-leaf-when-root-checking-is-disabled] c0.ll == d.usableLl && c0.cert == pr.res0[0] && c0.certRoot == nil && d.rootCompatibilityCheckDisabled
 //@ site RLock#1 as rl
+//@ site RUnlock#1 as ru
 //@ site ctfe.NewCertValidationOpts#1 as nv
-//@ at nv assert [root-pool-read-under-the-read-lock] rl.called && nv.trustedRoots == d.rootPool
-//@ at c1 assert [per-log-roots-read-under-the-read-lock] rl.called
-//@ at c2 assert [per-log-roots-and-completeness-read-under-the-read-lock] rl.called
+//@ at nv assert [root-pool-read-while-the-read-lock-is-held] rl.called && !ru.called && nv.trustedRoots == d.rootPool
+//@ at c1 assert [per-log-roots-read-while-the-read-lock-is-held] rl.called && !ru.called
+//@ at c2 assert [per-log-roots-and-completeness-read-while-the-read-lock-is-held] rl.called && !ru.called
 //@ at vc assert [the-submitted-chain-is-validated-against-the-known-roots] vc.rawChain == rawChain
 //@ at c1 assert [temporal-and-root-filter-on-the-validated-path] c1.ll == d.usableLl && vc.res1 == nil && c1.cert == vc.res0[0] && c1.certRoot == vc.res0[len(vc.res0) - 1] && c1.roots == d.logRoots
 //@ at c2 assert [temporal-filter-only-while-root-data-is-incomplete] c2.ll == d.usableLl && c2.cert == pr.res0[0] && c2.certRoot == nil && vc.res1 != nil && !d.rootDataFull
@@ -262,23 +263,27 @@ package submission
 //@ props C17
 //@ site AddPreChain#1 as a
 //@ site RLock#1 as rl
+//@ site RUnlock#1 as ru
 //@ requires p != nil && rspLatency != nil
 //@ requires [every-distributor-the-proxy-holds-is-one-NewDistributor-built] p.dist != nil ==> (ctx != nil && p.dist.usableLl != nil && p.dist.policy != nil && p.dist.pendingLogsPolicy != nil && (!p.dist.rootCompatibilityCheckDisabled ==> p.dist.rootPool != nil))
 //@ ensures [no-distributor-no-scts] after(rl, p.dist) == nil ==> len(result0) == 0 && result1 != nil && !a.called
 //@ ensures [the-distributors-verdict-unchanged] after(rl, p.dist) != nil ==> a.called && result0 == a.res0 && result1 == a.res1
 //@ at a assert [same-chain-to-the-active-distributor] a.d == after(rl, p.dist) && a.rawChain == rawChain && a.loadPendingLogs == loadPendingLogs
 //@ ensures [the-active-distributor-is-read-under-the-read-lock] rl.called
+//@ at ru assert [by-the-time-the-lock-is-released-the-pointer-has-been-copied] rl.called && dist == p.dist
 
 //@ func (*Proxy).AddChain
 //@ props C17
 //@ site AddChain#1 as a
 //@ site RLock#1 as rl
+//@ site RUnlock#1 as ru
 //@ requires p != nil && rspLatency != nil
 //@ requires [every-distributor-the-proxy-holds-is-one-NewDistributor-built] p.dist != nil ==> (ctx != nil && p.dist.usableLl != nil && p.dist.policy != nil && p.dist.pendingLogsPolicy != nil && (!p.dist.rootCompatibilityCheckDisabled ==> p.dist.rootPool != nil))
 //@ ensures [no-distributor-no-scts] after(rl, p.dist) == nil ==> len(result0) == 0 && result1 != nil && !a.called
 //@ ensures [the-distributors-verdict-unchanged] after(rl, p.dist) != nil ==> a.called && result0 == a.res0 && result1 == a.res1
 //@ at a assert [same-chain-to-the-active-distributor] a.d == after(rl, p.dist) && a.rawChain == rawChain && a.loadPendingLogs == loadPendingLogs
 //@ ensures [the-active-distributor-is-read-under-the-read-lock] rl.called
+//@ at ru assert [by-the-time-the-lock-is-released-the-pointer-has-been-copied] rl.called && dist == p.dist
 
 // The SCT set as an RFC 6962 s3.3 list: never an empty list, every SCT of the set, in order.
 //@ func ASN1MarshalSCTs
